@@ -57,13 +57,14 @@ Print Assumptions C16_sync_total.
 (* ---- the reader oracle discharged for a model of bufio.Reader ------------------------------------
    Model/Bufio.v transcribes bufio.Reader's fill / ReadByte / UnreadByte / Peek (buffer indices r, w,
    pending error, lastByte, at most 100 empty reads) over a scripted underlying io.Reader (the script
-   semantics of C18: `script_data s`, `script_err s`).  For EVERY buffer size and EVERY script without
-   (0, nil) reads (`nonempty_reads`), Sync over that bufio.Reader behaves exactly like Sync over the
+   semantics of C18: `script_data s`, `script_err s`).  For EVERY buffer size and EVERY script with
+   fewer than 100 zero-length reads in a row (`few_empty_reads`; at 100 bufio itself gives up with
+   io.ErrNoProgress), Sync over that bufio.Reader behaves exactly like Sync over the
    oracle `start (script_data s) (script_err s)`: same offset, same error, and the states stay related
    (`Rel`: what the reader will still deliver is the same).  So the three theorems above hold for
    bufio.Reader of any size over any fragmentation; the bufio model itself is tied to the real
    bufio.Reader by op io.syncb on every run (also on scripts with empty reads, incl. io.ErrNoProgress). *)
-Theorem C16_sync_over_bufio : forall size s, nonempty_reads (PacketWriter.Script s) ->
+Theorem C16_sync_over_bufio : forall size s, few_empty_reads (PacketWriter.Script s) ->
   bsim (N * option N) (Bufio.sync_raw size s) (sync_raw (start (script_data s) (script_err s))).
 Proof. exact sync_over_bufio. Qed.
 Print Assumptions C16_sync_over_bufio.
@@ -71,7 +72,7 @@ Print Assumptions C16_sync_over_bufio.
 (* found: the offset is the least plausible position of the delivered data, and what the bufio
    reader still holds (window ++ undelivered script data) is exactly the stream from there on *)
 Theorem C16_bufio_first_plausible : forall size s i,
-  nonempty_reads (PacketWriter.Script s) -> is_bytes (script_data s) -> first_plausible (script_data s) i ->
+  few_empty_reads (PacketWriter.Script s) -> is_bytes (script_data s) -> first_plausible (script_data s) i ->
   exists b', Bufio.sync_raw size s = Ok (N.of_nat i, None, b') /\
              bdata b' = skipn i (script_data s) /\ st_err (Bufio.brd b') = script_err s.
 Proof. exact sync_bufio_found. Qed.
@@ -81,7 +82,7 @@ Print Assumptions C16_bufio_first_plausible.
    (Model/Bufio.v `read`, incl. its large-read bypass and single-read refill) delivers exactly the
    188 bytes starting at the reported offset *)
 Theorem C16_bufio_next_read : forall size s i,
-  nonempty_reads (PacketWriter.Script s) -> is_bytes (script_data s) -> first_plausible (script_data s) i ->
+  few_empty_reads (PacketWriter.Script s) -> is_bytes (script_data s) -> first_plausible (script_data s) i ->
   exists b' e b'', Bufio.sync_raw size s = Ok (N.of_nat i, None, b') /\
                    Bufio.read_full 188 b' = Ok (firstn 188 (skipn i (script_data s)), e, b'').
 Proof. exact sync_bufio_next_read. Qed.
@@ -89,14 +90,14 @@ Print Assumptions C16_bufio_next_read.
 
 (* not found: sync-not-found when the script ends with io.EOF, the script's own error otherwise *)
 Theorem C16_bufio_not_found : forall size s,
-  nonempty_reads (PacketWriter.Script s) -> is_bytes (script_data s) -> none_plausible (script_data s) ->
+  few_empty_reads (PacketWriter.Script s) -> is_bytes (script_data s) -> none_plausible (script_data s) ->
   exists off b', Bufio.sync_raw size s = Ok (off, Some (map_err (script_err s)), b').
 Proof. exact sync_bufio_none. Qed.
 Print Assumptions C16_bufio_not_found.
 
 (* C05: no "tried to fill full buffer" panic, no out-of-window index, no endless fill loop *)
 Theorem C16_bufio_total : forall size s,
-  nonempty_reads (PacketWriter.Script s) -> is_bytes (script_data s) ->
+  few_empty_reads (PacketWriter.Script s) -> is_bytes (script_data s) ->
   Bufio.sync_raw size s <> Panic /\ Bufio.sync_raw size s <> Diverge.
 Proof. exact sync_bufio_total. Qed.
 Print Assumptions C16_bufio_total.
@@ -111,15 +112,18 @@ Theorem C16_F1_pinned_refuted :
 Proof. exact f1_pinned_refuted. Qed.
 Print Assumptions C16_F1_pinned_refuted.
 
-(* non-vacuity of the bufio theorems: 16-byte buffer, one-byte reads, reader error after the data *)
+(* non-vacuity of the bufio theorems: 16-byte buffer, one-byte reads with zero-length reads in between,
+   reader error after the data *)
 Example C16_bufio_nonvacuous :
-  let s := map (fun b => ([b], @None N)) [71; 0; 0; 0; 71; 0; 0; 16; 1; 2; 3; 4; 5; 6; 7; 8; 9; 10; 11; 12] ++ [([], Some 60)] in
-  nonempty_reads (PacketWriter.Script s) /\ first_plausible (script_data s) 4 /\
+  let s := [([], None); ([], None)] ++
+           map (fun b => ([b], @None N)) [71; 0; 0; 0; 71; 0; 0; 16; 1; 2; 3; 4; 5; 6; 7; 8; 9; 10; 11; 12] ++
+           [([], None); ([], Some 60)] in
+  few_empty_reads (PacketWriter.Script s) /\ first_plausible (script_data s) 4 /\
   (exists b', Bufio.sync_raw 16 s = Ok (4, None, b') /\ bdata b' = skipn 4 (script_data s)).
 Proof.
   cbv zeta. split; [|split].
-  - cbn [nonempty_reads]. apply Forall_forall. intros ce Hin. cbn [map app] in Hin.
-    repeat (destruct Hin as [<-|Hin]; [first [left; discriminate|right; discriminate]|]). contradiction.
+  - cbn [few_empty_reads runs_lt lead map app]. unfold Bufio.maxConsecutiveEmptyReads.
+    repeat (split; [lia|]). exact I.
   - split; [reflexivity|]. intros j Hj. destruct j as [|[|[|[|j]]]]; try reflexivity; lia.
   - eexists. split; [vm_compute; reflexivity|]. vm_compute. reflexivity.
 Qed.
